@@ -97,7 +97,9 @@ def gen(R):
                     shared[key] = False
             g += 2
             kinds = [x for x in KINDS if R.bool()] or ["state"]
-            ops.append({"op": k, "ctx": ctx, "gen": g, "kinds": kinds, "extra": R.choice([[], ["startup"], ["shutdown"]]) if k == "reload" else []})
+            ops.append({"op": k, "ctx": ctx, "gen": g, "kinds": kinds, "extra": R.choice([[], ["startup"], ["shutdown"]]) if k == "reload" else [],
+                        # a second function that the file itself removes again (del / rebind) before the context is started
+                        "dead": R.choice([None, None, "del", "rebind"]) if k == "reload" else None})
         elif k == "load_race":
             # the file is (re)loaded with one function whose @service comes first; while its triggers are still being
             # started (the service description lookup is suspended) the function is removed again
@@ -282,11 +284,14 @@ async def execute(case):
                         await asyncio.sleep(0)
                 if k in ("reload", "reload_fast"):
                     src = f"CTX = {ctx!r}\n" + FACTORY + "\n" + fn_src(ctx, "f1", op["gen"], op["kinds"], op["extra"], service_first=op["gen"] % 4 < 2) + "\n"
+                    if op.get("dead"):
+                        src += fn_src(ctx, "f2", op["gen"] + 500, ["state", "event", "time", "service"], ["startup"]) + "\n"
+                        src += "del f2\n" if op["dead"] == "del" else "f2 = 5\n"
                     with open(path, "w") as fh:
                         fh.write(src)
                     os.utime(path, (1_700_000_005 + 10 * i, 1_700_000_005 + 10 * i))
                     m.funcs[ctx] = {"f1": {"gen": op["gen"], "kinds": op["kinds"], "extra": op["extra"]}}
-                    m.bound[ctx] = {"f1"}
+                    m.bound[ctx] = {"f1"} | ({"f2"} if op.get("dead") == "rebind" else set())
                     m.loaded[ctx] = True
                     if "startup" in op["extra"]:
                         exp_runs.append([ctx, "f1", op["gen"], "time", "startup"])
